@@ -56,23 +56,26 @@ func msgNonce(m *message.Message) (uint64, bool) {
 }
 
 // guarded runs f; a panic is reported as "panic".
-func guarded(t *fpTable, f func() (*message.Message, error, bool)) (out string, dest uint8, fp uint64) {
+func guarded(t *fpTable, f func() (*message.Message, error, bool)) (out string, dest uint8, fp uint64, mn *uint64) {
 	defer func() {
 		if r := recover(); r != nil {
-			out, dest, fp = "panic", 0, 0
+			out, dest, fp, mn = "panic", 0, 0, nil
 		}
 	}()
 	m, err, skipped := f()
 	switch {
 	case skipped:
-		return "skip", 0, 0
+		return "skip", 0, 0, nil
 	case err != nil || m == nil:
-		return "err", 0, 0
+		return "err", 0, 0, nil
 	}
 	if k, ok := contentKey(m); ok {
 		fp = t.id(k)
 	}
-	return "ok", m.Destination, fp
+	if n, ok := msgNonce(m); ok {
+		mn = &n
+	}
+	return "ok", m.Destination, fp, mn
 }
 
 // =====================================================================================================
@@ -151,6 +154,8 @@ func depositLog(d Dep, nonce uint64, blk uint64, tx common.Hash, idx uint) ethTy
 	var data []byte
 	if d.Kind == "rawlog" {
 		data = unhex(d.Data)
+	} else if d.Kind == "badlog" {
+		data = badLogData(d, nonce)
 	} else {
 		var err error
 		data, err = bridgeABI.Events["Deposit"].Inputs.NonIndexed().Pack(d.Dest, resourceOf(d.Kind), nonce, unhex(d.Data), unhex(d.HR))
@@ -225,7 +230,7 @@ func (p propStore) PropStatus(s, d uint8, n uint64) (store.PropStatus, error) {
 
 // measureEvm: what the real listener + deposit handler do with this one deposit alone.
 func measureEvm(t *fpTable, d Dep, nonce uint64, retry bool) DepObs {
-	out, dest, fp := guarded(t, func() (*message.Message, error, bool) {
+	out, dest, fp, mn := guarded(t, func() (*message.Message, error, bool) {
 		if d.Kind == "otheraddr" && retry {
 			return nil, nil, true
 		}
@@ -238,7 +243,7 @@ func measureEvm(t *fpTable, d Dep, nonce uint64, retry bool) DepObs {
 		m, err := newEthDepositHandler().HandleDeposit(sourceDomain, x.DestinationDomainID, x.DepositNonce, x.ResourceID, x.Data, x.HandlerResponse, "m", x.Timestamp)
 		return m, err, false
 	})
-	return DepObs{Good: wfEvm(d), Out: out, Dest: dest, Fp: fp}
+	return DepObs{Good: wfEvm(d), Out: out, Dest: dest, Fp: fp, MNonce: mn}
 }
 
 func driveEvm(c Case) Obs {
@@ -346,6 +351,9 @@ func subEvent(d Dep, nonce uint64) *parser.Event {
 	if d.Kind == "subother" {
 		return &parser.Event{Name: "System.ExtrinsicSuccess"}
 	}
+	if d.Kind == "subbad" {
+		return &parser.Event{Name: "SygmaBridge.Deposit", Fields: subBadFields(d, nonce)}
+	}
 	tt := types.NewU8(0)
 	if d.Kind == "subtt" {
 		tt = types.NewU8(1)
@@ -394,7 +402,7 @@ func (s *subConn) UpdateMetatdata() error                             { return n
 func (s *subConn) FetchEvents(a, b *big.Int) ([]*parser.Event, error) { return s.range_, nil }
 
 func measureSub(t *fpTable, d Dep, nonce uint64) DepObs {
-	out, dest, fp := guarded(t, func() (*message.Message, error, bool) {
+	out, dest, fp, mn := guarded(t, func() (*message.Message, error, bool) {
 		ev := subEvent(d, nonce)
 		if ev.Name != "SygmaBridge.Deposit" {
 			return nil, nil, true
@@ -406,7 +414,7 @@ func measureSub(t *fpTable, d Dep, nonce uint64) DepObs {
 		m, err := newSubDepositHandler().HandleDeposit(sourceDomain, x.DestDomainID, x.DepositNonce, x.ResourceID, x.CallData, x.TransferType, "m", x.Timestamp)
 		return m, err, false
 	})
-	return DepObs{Good: wfSub(d), Out: out, Dest: dest, Fp: fp}
+	return DepObs{Good: wfSub(d), Out: out, Dest: dest, Fp: fp, MNonce: mn}
 }
 
 func driveSub(c Case) Obs {
@@ -480,7 +488,13 @@ func btcSetup() (map[[32]byte]btcconfig.Resource, btcutil.Address) {
 func btcTx(d Dep, idx uint64) btcjson.TxRawResult {
 	tx := btcjson.TxRawResult{Hash: fmt.Sprintf("%064x", idx), Blocktime: 1700000000}
 	if d.Kind != "btcnoopret" {
-		tx.Vout = append(tx.Vout, btcjson.Vout{ScriptPubKey: btcjson.ScriptPubKeyResult{Type: "nulldata", Hex: d.Data}})
+		scripts := []string{d.Data}
+		if d.Kind == "btc2op" { // two nulldata outputs: "script|script"
+			scripts = strings.Split(d.Data, "|")
+		}
+		for _, s := range scripts {
+			tx.Vout = append(tx.Vout, btcjson.Vout{ScriptPubKey: btcjson.ScriptPubKeyResult{Type: "nulldata", Hex: s}})
+		}
 	}
 	if d.Kind != "btcnopay" {
 		tx.Vout = append(tx.Vout, btcjson.Vout{Value: 0.00019, ScriptPubKey: btcjson.ScriptPubKeyResult{Type: "witness_v1_taproot", Address: btcBridge}})
@@ -507,7 +521,7 @@ func (c *btcConn) GetBlockVerboseTx(*chainhash.Hash) (*btcjson.GetBlockVerboseTx
 func measureBtc(t *fpTable, d Dep, idx uint64) DepObs {
 	_, good := wfBtc(d)
 	res, feeAddr := btcSetup()
-	out, dest, fp := guarded(t, func() (*message.Message, error, bool) {
+	out, dest, fp, _ := guarded(t, func() (*message.Message, error, bool) {
 		x, isDep, err := btclistener.DecodeDepositEvent(btcTx(d, idx), res[[32]byte{1}], feeAddr)
 		if err != nil {
 			return nil, err, false
